@@ -2,7 +2,7 @@
    Property theorems only; the model is Bac.Net (no proofs), the proofs live in Bac.NetFacts.
    Local theorems hold for EVERY node state, adapter, and arriving frame of the model.  `Fwd` marks the copies made
    by the forwarding section of process_npdu (netservice.py:607-676), `Tx` every other frame a node emits. *)
-From Bac Require Import Base Net NetFacts NetTerm NetTerm2 NetReply NetOnce.
+From Bac Require Import Base Net NetFacts NetTerm NetTerm2 NetReply NetOnce NetRoute.
 Open Scope N_scope.
 
 (* each router hop lowers the hop count by exactly one, and keeps payload and message type *)
@@ -213,6 +213,56 @@ Print Assumptions C06_cycle_discovery_refuted.
 Definition ups_of (w : world) : list obs :=
   filter (fun o => match o with OUp _ _ _ _ => true | _ => false end) (rev (trace w)).
 
+(* C06_tree_unicast_once, PARTIAL: the three steps of the induction along a correct route, each an exact
+   computation of what the node does (any state otherwise).  Missing: the induction itself over a loop-free
+   topology with warm caches (that the `find_path` / `find_net` hypotheses hold at every router of the unique
+   path), and hence "arrives"; "at most once, nobody else" is C06_unicast_at_most_once. *)
+(* the originating station with a cached path puts exactly one frame on its LAN: to the recorded router *)
+Theorem C06_tree_unicast_once_partial_origin : forall n a d dm m data,
+  adapters n = [a] -> optN_eqb (Some d) (a_net a) = false ->
+  pending_get (pending n) d = None -> cache_get (rcache n) (a_net a) d = Some m ->
+  indication n (ARS d dm) data = (n, [Tx 0 (LStation m) (mkNpdu (Some (DStation d dm)) None 255 None data)]).
+Proof. exact station_sends_unicast. Qed.
+Print Assumptions C06_tree_unicast_once_partial_origin.
+
+(* an intermediate router makes exactly one copy: to the cached next hop, hop - 1, DADR kept, SADR = originator *)
+Theorem C06_tree_unicast_once_partial_router : forall n i ai inet src dst p d dm j m',
+  nth_adapter n i = Some ai -> modelled_config n = true -> is_router n = true ->
+  a_net ai = Some inet ->
+  n_msg p = None -> n_dadr p = Some (DStation d dm) -> n_hop p <> 0 ->
+  (forall snet sm, n_sadr p = Some (snet, sm) -> find_net n (Some snet) = None /\ snet <> d) ->
+  find_net n (Some d) = None ->
+  find_path n d = Some (j, m') ->
+  process_npdu n i src dst p =
+    (learned n ai src p,
+     [Fwd j (LStation m') (mkNpdu (n_dadr p) (Some (fwd_sadr inet src p)) (n_hop p - 1) None (n_data p))]).
+Proof. exact router_forwards_unicast. Qed.
+Print Assumptions C06_tree_unicast_once_partial_router.
+
+(* the last router makes exactly one copy: on the destination network, link-addressed to the station, DADR removed *)
+Theorem C06_tree_unicast_once_partial_last_router : forall n i ai inet src dst p d dm j la,
+  nth_adapter n i = Some ai -> nth_adapter n (local_idx n) = Some la ->
+  modelled_config n = true -> is_router n = true ->
+  a_net ai = Some inet ->
+  n_msg p = None -> n_dadr p = Some (DStation d dm) -> n_hop p <> 0 ->
+  (forall snet sm, n_sadr p = Some (snet, sm) -> find_net n (Some snet) = None) ->
+  find_net n (Some d) = Some j -> j <> i ->
+  optN_eqb (Some d) (a_net ai) = false -> optN_eqb (Some d) (a_net la) = false ->
+  process_npdu n i src dst p =
+    (learned n ai src p,
+     [Fwd j (LStation dm) (mkNpdu None (Some (fwd_sadr inet src p)) (n_hop p - 1) None (n_data p))]).
+Proof. exact last_router_delivers. Qed.
+Print Assumptions C06_tree_unicast_once_partial_last_router.
+
+(* the station hands the payload up exactly once and shows the originator's network and address *)
+Theorem C06_tree_unicast_once_partial_station : forall n a src dst p sn sm,
+  adapters n = [a] -> has_app n = true ->
+  n_msg p = None -> n_dadr p = None -> apdu_ok (n_data p) = true ->
+  n_sadr p = Some (sn, sm) -> optN_eqb (a_net a) (Some sn) = false ->
+  process_npdu n 0 src dst p = (learned n a src p, [Up (ARS sn sm) (ldest_to_addr dst) (n_data p)]).
+Proof. exact station_hands_up. Qed.
+Print Assumptions C06_tree_unicast_once_partial_station.
+
 (* C06_reply_routable is FALSE of the code when the originator is an application on a router: router with ports
    (net 1, net 2), local adapter = net 2, broadcasts globally; the station on net 1 is shown the router's net-1
    address in local form; its reply to that address arrives on the non-local adapter and is handed to nobody. *)
@@ -288,6 +338,17 @@ Example C06_unicast_at_most_once_example :
             world_routableb w = true.
 Proof. eexists. vm_compute. repeat split. Qed.
 (* on the warm tree the unicast is in fact delivered: exactly one Up (C06_tree_unicast_example below) *)
+
+(* the hypotheses of the route-step theorems hold at router R0 of tree4 for a packet from network 1 to network 4
+   (intermediate router), at R1 (last router) and at the station (4, [2]) *)
+Example C06_route_step_example :
+  let r0 := mkNode [mkAd (Some 1) (Some [10]); mkAd (Some 2) (Some [10]); mkAd (Some 3) (Some [10])] false [((Some 3, 4), [11])] [] in
+  let r1 := mkNode [mkAd (Some 3) (Some [11]); mkAd (Some 4) (Some [11])] false [((Some 3, 1), [10]); ((Some 3, 2), [10])] [] in
+  (modelled_config r0 = true /\ is_router r0 = true /\ find_net r0 (Some 4) = None /\ find_path r0 4 = Some (2%nat, [11])) /\
+  (modelled_config r1 = true /\ is_router r1 = true /\ find_net r1 (Some 1) = None /\ find_net r1 (Some 4) = Some 1%nat /\
+   nth_adapter r1 (local_idx r1) = Some (mkAd (Some 4) (Some [11]))) /\
+  optN_eqb None (Some 1) = false.
+Proof. vm_compute. repeat split. Qed.
 
 (* a four-network tree (routers R0: nets 1,2,3; R1: nets 3,4) with correct caches: unicast, remote broadcast and
    global broadcast from the station on network 1 are delivered exactly once to exactly the right stations *)
